@@ -74,6 +74,21 @@ ReaderRule(a, rd) ==
        THEN "C11 READER: reader reports other source size / chunk counts / offset / checksum than recorded"
   ELSE "ok"
 
+\* C11 at the command line: what `bita info` prints (inf: the fields it covers, parsed) is what is recorded
+CompressionText(c) == CASE c.type = 3 -> "Brotli (level " \o ToString(c.level) \o ")"
+                        [] c.type = 2 -> "zstd (level " \o ToString(c.level) \o ")"
+                        [] c.type = 1 -> "LZMA (level " \o ToString(c.level) \o ")"
+                        [] OTHER -> "none"
+InfoRule(a, inf) ==
+  LET fixed == a.params.alg = 2 IN
+  IF inf.alg # a.params.alg \/ inf.max_s # a.params.max_s \/ inf.hash_len # a.params.hash_len
+     \/ (~fixed /\ (inf.min_s # a.params.min_s \/ inf.window # a.params.window \/ inf.bits # a.params.bits))
+     THEN "C11 READER: bita info prints other chunker parameters than recorded"
+  ELSE IF inf.compression # CompressionText(a.compression) THEN "C11 READER: bita info prints another compression than recorded"
+  ELSE IF inf.total # a.total \/ inf.nchunks # Len(a.order) \/ inf.nunique # Len(a.descs) \/ inf.src_sum # a.src_sum \/ inf.version # a.version
+       THEN "C11 READER: bita info prints other source size / chunk counts / checksum / version than recorded"
+  ELSE "ok"
+
 \* C17: the class of archives every reader must accept: either magic, data anywhere at/after the header, stored chunks anywhere
 \* in the data region in any order with gaps, unknown fields, per-chunk raw (asz = ssz) or compressed storage
 Conforming(a) ==
